@@ -90,8 +90,11 @@ func runC04(c *ShardCtx) {
 			if want, got := len(g.Blocks()), len(b.Prefix.Blocks); !gen.OptGrammar && want != got {
 				c.Report(Violation{Desc: fmt.Sprintf("%d code blocks but %d on-methods emitted", want, got), Grammar: text, Gen: gen.String()}, "")
 			}
-			// each method receives EXACTLY the labels of its block's scope (reference scope rule)
-			if !gen.OptGrammar {
+			// each method receives EXACTLY the labels of its block's scope (reference scope rule); with
+			// -optimize-grammar a block may be emitted several times (one method per inlined copy): every
+			// copy still receives the labels of the scope the block was WRITTEN in, never labels of the
+			// rule it was inlined into
+			{
 				byID := map[int]*peg.Expr{}
 				for _, blk := range g.Blocks() {
 					byID[blk.ID] = blk
